@@ -215,4 +215,5 @@ class repeated_node_with_interleaving_comments_property(
         repeated = self._inner_field.__get__(instance)
         properties.replace_node(repeated, value.repeated)
         self._inner_field.__set__(instance, value.repeated)
+        properties.drop_views_of(instance, instance.__dict__.get(self._attr))
         instance.__dict__[self._attr] = value
